@@ -7,6 +7,7 @@ import (
 	"os"
 	"path/filepath"
 	"regexp"
+	"runtime/pprof"
 	"sort"
 	"strconv"
 	"strings"
@@ -133,7 +134,17 @@ func cmdCheck(args []string) int {
 	timeout := fs.Int("timeout", 0, "per-obligation solver timeout (s)")
 	verbose := fs.Bool("v", false, "verbose")
 	noEvidence := fs.Bool("no-evidence", false, "do not write the evidence file")
+	cpuprof := fs.String("cpuprofile", "", "write a CPU profile")
 	fs.Parse(args)
+	if *cpuprof != "" {
+		f, _ := os.Create(*cpuprof)
+		pprof.StartCPUProfile(f)
+		go func() {
+			time.Sleep(30 * time.Second)
+			pprof.StopCPUProfile()
+			f.Close()
+		}()
+	}
 	t0 := time.Now()
 	seed := 0
 	if s := os.Getenv("VERIF_SEED"); s != "" {
@@ -166,6 +177,7 @@ func cmdCheck(args []string) int {
 			"obligation": "#load", "reason": err.Error()}))
 		return 1
 	}
+	P.CS.Errors = append(P.CS.Errors, InstantiateSchemas(P)...)
 	for _, e := range P.CS.Errors {
 		fmt.Println("contract error:", e)
 	}
@@ -180,6 +192,14 @@ func cmdCheck(args []string) int {
 	sem := make(chan struct{}, 8)
 	for _, k := range keys {
 		c := P.CS.Funcs[k]
+		if c.Trusted && len(c.SQLTexts) > 0 && hasProp(c.Props, *prop) {
+			if fn := P.FindFunc(c.PkgPath, c.Key); fn != nil {
+				reports = append(reports, CheckSQLPins(P, fn, c))
+			} else {
+				reports = append(reports, &FuncReport{Func: k, Key: c.Key, Error: "contract names a function that does not exist (#contract.target)"})
+			}
+			continue
+		}
 		if c.Trusted || c.Pure && len(c.Ensures) == 0 {
 			continue
 		}
@@ -242,19 +262,48 @@ func cmdCheck(args []string) int {
 	jsem := make(chan struct{}, workers)
 	var jwg sync.WaitGroup
 	// rendering touches the (not thread-safe) term pool of the function's executor: do it sequentially
-	files := make([]string, len(jobs))
+	files := make([][]string, len(jobs))
 	for i, j := range jobs {
-		files[i] = oblFile(outDir, j.o.Name)
-		writeFile(files[i], j.rep.ex.Render(j.o))
+		if len(j.o.Parts) > 0 {
+			for pi, part := range j.o.Parts {
+				po := *j.o
+				po.PC, po.Goal = part.PC, part.Goal
+				f := oblFile(outDir, fmt.Sprintf("%s@%d", j.o.Name, pi))
+				writeFile(f, j.rep.ex.Render(&po))
+				j.o.ModelKeys = po.ModelKeys
+				files[i] = append(files[i], f)
+			}
+			continue
+		}
+		files[i] = []string{oblFile(outDir, j.o.Name)}
+		writeFile(files[i][0], j.rep.ex.Render(j.o))
 	}
+	var rmu sync.Mutex
 	for i, j := range jobs {
-		jwg.Add(1)
-		go func(i int, j job) {
-			defer jwg.Done()
-			jsem <- struct{}{}
-			defer func() { <-jsem }()
-			j.o.Result = Solve(files[i], to, *tier == "thorough", j.o.Kind == "requires-sat" || j.o.Kind == "reach")
-		}(i, j)
+		for _, f := range files[i] {
+			jwg.Add(1)
+			go func(j job, f string, nparts int) {
+				defer jwg.Done()
+				jsem <- struct{}{}
+				defer func() { <-jsem }()
+				r := Solve(f, to, *tier == "thorough", j.o.Kind == "requires-sat" || j.o.Kind == "reach")
+				rmu.Lock()
+				defer rmu.Unlock()
+				// combine: discharged iff every part is unsat; the first failing part is the reported one
+				if j.o.Result == nil {
+					j.o.Result = r
+					return
+				}
+				prev := j.o.Result
+				total := prev.Seconds + r.Seconds
+				if prev.Status == "unsat" && r.Status != "unsat" {
+					j.o.Result = r
+				} else if prev.Status != "unsat" && prev.Status != "sat" && r.Status == "sat" {
+					j.o.Result = r
+				}
+				j.o.Result.Seconds = total
+			}(j, f, len(files[i]))
+		}
 	}
 	jwg.Wait()
 
